@@ -170,6 +170,12 @@ MUTANTS += [
     ("idiom-scan-helper-returns-read-offset", ["C07"], [("@patch", "refactors/process-r3-R3/patch.diff", None), (I, "    Ok(proc_offset)\n}", "    Ok(read_offset)\n}")]),
     ("idiom-scan-helper-write-outside-guard", ["C10"], [("@patch", "refactors/process-r3-R3/patch.diff", None),
                                                        (I, "        if !res_buf.is_empty() {\n            adapter.write(&*res_buf).await?;", "        {\n            adapter.write(&*res_buf).await?;")]),
+    ("idiom-either-swallows-incomplete", ["C08", "C12"], [("@patch", "refactors/parser-top-r4-R4/patch.diff", None),
+                                                         (P, "        Err(ParseError::SoftError(_) | ParseError::FatalError(_)) => second(input),\n        verdict => verdict,", "        Err(_) => second(input),\n        verdict => verdict,")]),
+    ("idiom-split_once-quote-not-doubled", ["C04"], [("@patch", "refactors/response-value-r4-R2/patch.diff", None),
+                                                    (R, "        f.write_str(DOUBLED_QUOTE).await?;", "        f.write_str(\"\\\"\").await?;")]),
+    ("idiom-slicepat-terminator-swapped", ["C02"], [("@patch", "refactors/parser-top-r4-R1/patch.diff", None),
+                                                   (P, "[b'\\n', rest @ ..] => (rest, true)", "[b'\\n', rest @ ..] => (rest, false)")]),
     ("idiom-take_while-loop-unguarded", ["C05"], [("@patch", "refactors/parser-leaves-r2-R2/patch.diff", None),
                                                  (P, "while taken < input.len() && pred(input[taken]) {", "while pred(input[taken]) {")]),
 ]
@@ -178,4 +184,7 @@ MUTANTS += [
 # refactorings that are known to raise alarms although behaviour is unchanged (DESIGN.md 6.3): the state of `process`
 # restructured beyond what the buffer-discipline rules can follow. Listed so that the run shows them for what they are.
 LIMITATIONS = {
+    "r-process-r4-R1": "the terminator search of process written as iter().zip(read_offset..).find_map(|(&b, i)| (b == b'\\n').then_some(i)) - not one of the recognised search idioms",
+    "r-process-r4-R4": "the repeated terminator search of process fused into one for-enumerate pass with `continue` - a different loop structure than the nested search the buffer-discipline rules read",
+    "r-queue-tree-r4-R2": "Node::child rewritten as a slice-pattern walk over a loop-carried remainder with a hand-written byte-wise case-insensitive comparison",
 }
